@@ -257,7 +257,7 @@ impl ClientHello {
 //@end
 }
 impl Context {
-//@extract id=context_new file=netconf/src/session.rs impl=/^impl Context/ fn=new rules=R1 vis=pub
+//@extract id=context_new file=netconf/src/session.rs impl=/^impl Context/ fn=new rules=R1 vis=pub optional=1
 //@contract
         ensures res.session_id == session_id, res.protocol_version == protocol_version,            // OBL:C12.context.records_what_it_is_given
                 res.client_capabilities == client_capabilities, res.server_capabilities == server_capabilities,
